@@ -22,16 +22,18 @@ key) and adds a dependency with a callback of the result on the template's retur
 per-key input node stale (`expert_make_stale`, skipped when nobody holds the node: the repaired D9); for a REMOVED key it
 removes the dependency and invalidates the per-key node.  The result's value is the map assembled from the callback slots.
 
-FRAGMENT (stage 1a; `PerKeyH.PActionOK env s a`, `PerKeyH.RunOKP env acts s tk`; decidable sufficient check `runOKPB`).
+FRAGMENT (stage 1b; `PerKeyH.PActionOK env s a`, `PerKeyH.RunOKP env acts s tk`; decidable sufficient check `runOKPB`).
 Static programs (`create` of `const`, `var` — map literals sorted —, pure `map`, `fold` with id `< xBase`, `zip`, over top-level
 operands; `observe (.outer k)`, `cloneObs`, `dropObs`, `disallow`; `set`/`replace`, and `modify`/`update`/`replaceWith` on
-variables that hold no map; `get`, `stabilise`, `isStable`, `stats`) PLUS `create (perKey none fam x)` where `x` names a VARIABLE
-holding a sorted map and the family `env.perKey fam` is a template of PURE STATIC nodes (`PerKeyH.TemplOK`: `const`, `lhsconst`,
-pure `map`, non-empty `fold`) over the per-key input node `%0`, earlier locals `%j` and top-level nodes `n<k>` that exist
-when the operator is created, whose RETURN NODE DEPENDS ON `%0` (`PerKeyH.UsesInput`: the generator's families P0
-`lhsconst ; map f0 %0 %1 ; ret %2`, P3 `lhsconst ; map f2 %0 n2 ; ret %2` (map2 with an outer variable), P4 (chain); NOT P1
-`map f1 n2 ; ret %1`, P2 `ret n2`, which ignore their input), and — STAGE 1 — a write to a variable that holds a map stores a
-sorted map WITH AT LEAST THE SAME KEYS (`PerKeyH.PWriteOK`: key insertions and value changes in any number and order, NO KEY
+variables that hold no map; `get`, `stabilise`, `isStable`, `stats`) PLUS `create (perKey cut fam x)` where `cut` is absent or
+the default cutoff (`cut ∈ {none, some .eq}`: `incr_mapi_` and `incr_mapi_cutoff` with `Cutoff::PartialEq`), `x` names a
+VARIABLE holding a sorted map and the family `env.perKey fam` is ANY template of PURE STATIC nodes (`PerKeyH.TemplOK`: `const`,
+`lhsconst`, pure `map`, non-empty `fold`) over the per-key input node `%0`, earlier locals `%j` and top-level nodes `n<k>` that
+exist when the operator is created: ALL the generator's families P0 `lhsconst ; map f0 %0 %1 ; ret %2`, P3
+`lhsconst ; map f2 %0 n2 ; ret %2` (map2 with an outer variable), P4 (chain), and the families that IGNORE their input: P1
+`map f1 n2 ; ret %1` (the per-key input node is never necessary, never computed) and P2 `ret n2` (no instance node at all: the
+result depends, once per key, on ONE shared pre-existing node — duplicate dependencies on one child), and — STAGE 1 — a write to
+a variable that holds a map stores a sorted map WITH AT LEAST THE SAME KEYS (`PerKeyH.PWriteOK`: key insertions and value changes in any number and order, NO KEY
 REMOVAL).  Everything else is allowed: several operators (also over the same variable, also with templates that use the OUTPUT
 of an older operator as an outer node), maps and observers on top of outputs, changing the outer variables, unobserving and
 re-observing the output (the change detector then diffs against the map it last ran on, several edits back), both `cfg.debug`
@@ -53,9 +55,15 @@ A RUN OF A CHANGE DETECTOR is, on `V`, a REWIRING-WITH-CREATION step `PerKeyH.St
 drain invariant `BindH.DInv` with a changing graph of `Props/C03Order.lean`) followed by a static step: the loop of
 `perKeyDriver` is threaded through `Mid` of the twin (creation of the per-key node and the template instance:
 `mid_mkNode`, `expertBlock_mid`, `elabTemplateBase_mid`; `expertAddDependency` on the NECESSARY result: `addSpec`, acyclicity
-from the potential `Pot`; `expertMakeStale`: `staleSpec`, the node is ALIVE because it is necessary: `nec_alive`), the
-bookkeeping `PKOK` (`prevNodes` ↔ dependencies of the result ↔ per-key nodes ↔ template instances `Inst`; OWNERSHIP: private
-nodes are referenced only by private nodes or the result, have no observer and no name) is re-established at the end.
+from the potential `Pot`; `expertMakeStale`: `staleSpec`; a per-key input node that is USED by its instance is necessary, hence ALIVE: `nec_alive`;
+one that is not used has never been computed — virtual stamp `-1` —, and whether or not the run calls `expertMakeStale` on it
+(`isAlive` is unknown) it is stale with virtual stamp `-1` afterwards), the bookkeeping `PKOK` (`prevNodes` ↔ dependencies of the
+result ↔ per-key nodes ↔ template instances `Inst`; OWNERSHIP: private nodes are referenced only by private nodes or the
+result, have no observer and no name; `EntryOK.input`: a per-key input node is reached from its instance's return node OR has
+never been computed) is re-established at the end.  A RUN OF A PER-KEY INPUT NODE re-establishes the first alternative by the
+OWNERSHIP WALK `priv_nec_below`: the node is current, hence necessary; its parents are private nodes of its OWN instance
+(instances are disjoint ranges of consecutive nodes) or the result; heights increase along parent entries, so the walk ends
+at the result, through the dependency of its own entry.
 
 INVARIANTS.  Between API actions `PerKeyH.PQ env rk s`: `PFrag` (kinds, all nodes valid), `QR.QInv (penv env) rk (V s)` (the
 quiescent invariant of the static fragment for the virtual state: edge symmetry exactly for necessary nodes, heights, the heap
@@ -82,8 +90,10 @@ PROVED (for the model; partial correctness: each statement assumes that the call
 * `runOKP_of_check'`: the decidable check implies `RunOKP`.
 * Non-vacuity (kernel evaluation): `ckHist fam` (20 actions over `{1:3,5:0}`: insert key 6, change a value, change the outer
   variable, unobserve, two edits incl. a new key, re-observe, a last edit with two changes) IS a history of the fragment for
-  P0, P3, P4 (`example_fragment`), runs, and the theorem applies to it (`example_theorem`); its last read is
-  `{1:3,5:6,6:0,8:6,9:5}` = `(v + 5) mod 7` (`example_read`); the check REJECTS families P1, P2 and a key removal.
+  ALL FIVE families P0–P4, and so is its variant `ckHistCut 3` with the explicit default cutoff (`example_fragment`); they run,
+  and the theorem applies (`example_theorem`); the last read of P3 is `{1:3,5:6,6:0,8:6,9:5}` = `(v + 5) mod 7`
+  (`example_read`), of P1 `{k ↦ 6}` = `(1 + n2) mod 7`, of P2 `{k ↦ 5}` = `n2` (`example_read_ignoring`); the check REJECTS a key
+  removal (`example_rejected`).
   `exP3_*`, `exP0_*`, `exP4_*`, `exP1_*`, `exP2_*` (`Proofs/PerKeyH…`, imported here): the MODEL's reads on a 26-action
   history over all five families INCLUDING KEY REMOVALS (insert, change, remove, outer variable, unobserve + two edits +
   re-observe) equal `F_fam` of the entries (explicit functions `F3 o k v = (v + o) % 7`, …); same traces as the real
@@ -96,9 +106,8 @@ an invalid child" of `BGraph` fails for `V` as defined (the template nodes of th
 invalidated per-key node to a valid never-computed `const` node repairs it on all checked states (design of stage 2).
 
 ASSUMED / NOT PROVED.  Partial correctness throughout (no "never panics" theorem).  NOT covered: KEY REMOVAL (stage 2: every
-simulation calculus used here assumes all nodes valid, `ExpertH.Fr`), the families that ignore their input (P1, P2: the
-ownership invariants are in place, the `.unequal` case for a never-computed unused node is not), the `_cutoff` variants
-(`cut ≠ none`; `QR.AllStatic` demands the default cutoff), `filter` (the model has no filtering variant), family P5 (binds in
+simulation calculus used here assumes all nodes valid, `ExpertH.Fr`), the `_cutoff` variants with a NON-default cutoff
+(`cut ∉ {none, some .eq}`; `QR.AllStatic` demands the default cutoff), `filter` (the model has no filtering variant), family P5 (binds in
 the template), C17 for per-key nodes (unchanged keys are not recomputed: only the local facts of `Props/C16.lean`), observers
 on internal nodes of an operator (`observe #…`).  No finding: model and real implementation agree on all checked histories.
 -/
@@ -159,7 +168,7 @@ theorem history_every_stabilise {env : Env} (hE : EnvP env) {N : Nat} {d : Bool}
       QR.runActions env bs s2 tk1 = .ok (s, tk) :=
   history_every_stabilise_p hE ha h
 
-/-- **C16 for whole histories (stage 1a).**  At every `stabilise` of a history of the fragment that runs from the initial
+/-- **C16 for whole histories (stage 1b: all templates of pure static nodes, `cut ∈ {none, eq}`, no key removal).**  At every `stabilise` of a history of the fragment that runs from the initial
 state: in the state `s2` reached by that `stabilise`, every in-use observer `o` of the output node `pr.result + 2` of an
 operator `op` reads a map `mo`, and `mo` is the specified map `{k ↦ F_fam(k, v)}` of the CURRENT value `mx` of the operator's
 input variable (`vc.value`, the variable's cell) with the outer nodes `n<k>` at their current values. -/
@@ -201,22 +210,37 @@ theorem stabilise_no_node_twice {env : Env} {fuel : Nat} {s s' : State} (R : Sta
 /-! ## non-vacuity -/
 
 /-- the example history (insert a key, change a value, change the outer variable, unobserve, edit twice, re-observe, edit)
-is a history of the fragment for the families P0, P3 and P4 -/
+is a history of the fragment for ALL FIVE families P0, P3, P4, P1 (`map f1 n2 ; ret %1`), P2 (`ret n2`) — the last two ignore
+their input —, and so is its variant with the explicit default cutoff `perKey (some .eq) P3 n0` -/
 theorem example_fragment : RunOKP ckEnv (ckHist 0) (State.init 128 true) #[] ∧
-    RunOKP ckEnv (ckHist 3) (State.init 128 true) #[] ∧ RunOKP ckEnv (ckHist 4) (State.init 128 true) #[] := ck_runOKP
+    RunOKP ckEnv (ckHist 3) (State.init 128 true) #[] ∧ RunOKP ckEnv (ckHist 4) (State.init 128 true) #[] ∧
+    RunOKP ckEnv (ckHist 1) (State.init 128 true) #[] ∧ RunOKP ckEnv (ckHist 2) (State.init 128 true) #[] ∧
+    RunOKP ckEnv (ckHistCut 3) (State.init 128 true) #[] :=
+  ⟨ck_runOKP.1, ck_runOKP.2.1, ck_runOKP.2.2, ck_runOKP12.1, ck_runOKP12.2.1, ck_runOKP12.2.2⟩
 
 /-- it runs, and its last read (family P3, observer `o1`) is `{k ↦ (v + 5) mod 7}` of `{1:5,5:1,6:2,8:1,9:0}` -/
 theorem example_read : ranOk ckEnv (ckHist 3) = true ∧
     readAfter ckEnv (ckHist 3) 1 = some (.map [(1, 3), (5, 6), (6, 0), (8, 6), (9, 5)]) := ⟨ck_run.2.1, ck_run.2.2.2⟩
 
-/-- the check rejects what is outside the fragment: families that ignore their input, key removal -/
-theorem example_rejected : runOKPB ckEnv (effOfDefs ckDefs) (ckHist 1) (State.init 128 true) #[] = false ∧
-    runOKPB ckEnv (effOfDefs ckDefs) (ckHist 2) (State.init 128 true) #[] = false ∧
-    runOKPB ckEnv (effOfDefs ckDefs) (ckHistRm 3) (State.init 128 true) #[] = false := ck_reject
+/-- the histories of the families that ignore their input run, and their last reads (observer `o1`) are `{k ↦ (1 + n2) mod 7}`
+(P1) and `{k ↦ n2}` (P2) for `n2 = 5`; the cutoff variant reads what the plain P3 history reads -/
+theorem example_read_ignoring : ranOk ckEnv (ckHist 1) = true ∧ ranOk ckEnv (ckHist 2) = true ∧
+    ranOk ckEnv (ckHistCut 3) = true ∧
+    readAfter ckEnv (ckHist 1) 1 = some (.map [(1, 6), (5, 6), (6, 6), (8, 6), (9, 6)]) ∧
+    readAfter ckEnv (ckHist 2) 1 = some (.map [(1, 5), (5, 5), (6, 5), (8, 5), (9, 5)]) ∧
+    readAfter ckEnv (ckHistCut 3) 1 = some (.map [(1, 3), (5, 6), (6, 0), (8, 6), (9, 5)]) := ck_run12
+
+/-- the check rejects what is outside the fragment: key removal -/
+theorem example_rejected : runOKPB ckEnv (effOfDefs ckDefs) (ckHistRm 3) (State.init 128 true) #[] = false := ck_reject
 
 /-- the invariant holds in every state the example history reaches (the theorem applies) -/
 theorem example_theorem {s : State} {tk : Array Nat}
     (h : QR.runActions ckEnv (ckHist 3) (State.init 128 true) #[] = .ok (s, tk)) : ∃ rk, PQ ckEnv rk s :=
   history_inv (toEnv_envP ckDefs) ck_runOKP.2.1 h
+
+/-- the same for a family that ignores its input (P2 `ret n2`: one shared node for all keys) -/
+theorem example_theorem_ignoring {s : State} {tk : Array Nat}
+    (h : QR.runActions ckEnv (ckHist 2) (State.init 128 true) #[] = .ok (s, tk)) : ∃ rk, PQ ckEnv rk s :=
+  history_inv (toEnv_envP ckDefs) ck_runOKP12.2.1 h
 
 end IncrVerif.Props.C16History
